@@ -1,4 +1,4 @@
-import Dawn.Proofs.LoaderInv5
+import Dawn.Proofs.LoaderDeadlock
 /-!
 # C06 — module loading is once-only, terminating and cycle-safe
 
@@ -140,6 +140,33 @@ theorem C06_cycle_reported {P : Project} {s : State} (h : Reachable .fixed P s) 
       exact ⟨h2.1, Nat.lt_trans h2.2 h1.2⟩
   exact absurd (hdec m m hp hok).2 (Nat.lt_irrefl _)
 
+/-- C06, no deadlock: in every reachable state in which some loader goroutine has not returned, some goroutine can
+take a step — for every load graph (acyclic or cyclic, shared helpers, self-loads), any number of packages and every
+interleaving. No set of goroutines ever waits for each other in a circle: the one that published its `loading`
+pointer last would have found the cycle in its chain walk. Together with `C06_cycle_reported` / `C06_acyclic_ok`:
+`Load` does not hang, it returns the cyclic-dependency error or succeeds. (Termination additionally needs weak fairness
+for a chain walk that spins round a cycle two other goroutines are about to un-publish; see DESIGN.md section 4.) -/
+theorem C06_deadlock_free {P : Project} {s : State} (h : Reachable .fixed P s) (hu : ¬ Terminal P s) :
+    ∃ t s', next .fixed P s t = some s' := by
+  apply Classical.byContradiction
+  intro hno
+  have hstuck : ∀ t, next .fixed P s t = none := by
+    intro t
+    cases hn : next .fixed P s t with
+    | none => rfl
+    | some s' => exact absurd ⟨t, s', hn⟩ hno
+  have : ∃ t, s.pc t ≠ .finished := by
+    apply Classical.byContradiction
+    intro hall
+    exact hu (fun t _ => Classical.byContradiction fun hne => hall ⟨t, hne⟩)
+  obtain ⟨t0, ht0⟩ := this
+  exact no_stuck h hstuck t0 ht0
+
+/-- the blocked states of the fixed loader are exactly the condition waits on unfinished modules -/
+theorem C06_blocked_only_in_wait {P : Project} {s : State} (h : Reachable .fixed P s) {t : Tid}
+    (hn : next .fixed P s t = none) : s.pc t = .finished ∨ ∃ d, s.pc t = .sleep d ∧ s.loaded d = false :=
+  stuck_thread (lockFree_reachable h) (inv1_reachable h) hn
+
 /-! ## Non-vacuity -/
 
 theorem acyclic_of_rank {P : Project} (rank : Mod → Nat) (h : ∀ a b, b ∈ P.loads a → rank b < rank a) : Acyclic P := by
@@ -179,6 +206,12 @@ example : ∃ s, Reachable .fixed sharedHelper s ∧ Terminal sharedHelper s ∧
     have := h.1
     simp only [unfinished, List.any_eq_false, List.mem_range, bne_iff_ne, ne_eq, Decidable.not_not] at this
     exact this t ht
+
+/-- the hypothesis of `C06_deadlock_free`: reachable states with goroutines still running exist (the initial one) -/
+example : Reachable .fixed sharedHelper (init sharedHelper) ∧ ¬ Terminal sharedHelper (init sharedHelper) := by
+  refine ⟨.refl _, fun h => ?_⟩
+  have := h 0 (by decide)
+  simp [init, sharedHelper] at this
 
 /-- a cyclic project: package 0 loads 1, 1 loads 2, 2 loads 3, 3 loads 1 (the three-module cycle that the code as
 written cannot report) -/
